@@ -23,6 +23,10 @@ fn ts_ok(s: &str) -> bool {
     !s.is_empty() && s.len() <= 64 && s.bytes().all(|c| c.is_ascii_graphic() && c != b'=' && c != b'"') && s.bytes().any(|c| c.is_ascii_digit())
 }
 
+fn word_ok(s: &str) -> bool {
+    !s.is_empty() && s.len() <= 32 && s.bytes().all(|c| c.is_ascii_alphanumeric() || c == b'_' || c == b'-')
+}
+
 fn parse_console(l: &str) -> Result<Event, String> {
     let c: Vec<&str> = l.split('\t').collect();
     if c.len() < 3 {
@@ -31,11 +35,16 @@ fn parse_console(l: &str) -> Result<Event, String> {
     if !ts_ok(c[0]) {
         return Err(format!("timestamp {:?}", c[0]));
     }
+    if !["recv", "send", "drop"].contains(&c[2]) {
+        // a line that is no event of a layer (start-up information and the like): complete when
+        // it names what it is about
+        if word_ok(c[1]) && word_ok(c[2]) {
+            return Ok(Event { proto: c[1].to_string(), verb: c[2].to_string(), f: BTreeMap::new() });
+        }
+        return Err(format!("verb column {:?}", c[2]));
+    }
     if !PROTOS.contains(&c[1]) {
         return Err(format!("protocol column {:?}", c[1]));
-    }
-    if !["recv", "send", "drop"].contains(&c[2]) {
-        return Err(format!("verb column {:?}", c[2]));
     }
     let want = match c[1] {
         "arp" => 8,
@@ -121,11 +130,14 @@ fn parse_logfmt(l: &str) -> Result<Event, String> {
     if !ts_ok(&ts) {
         return Err(format!("timestamp {:?}", ts));
     }
+    if !["recv", "send", "drop"].contains(&verb.as_str()) {
+        if word_ok(&proto) && word_ok(&verb) {
+            return Ok(Event { proto, verb, f: BTreeMap::new() });
+        }
+        return Err(format!("verb {:?}", verb));
+    }
     if !PROTOS.contains(&proto.as_str()) {
         return Err(format!("proto {:?}", proto));
-    }
-    if !["recv", "send", "drop"].contains(&verb.as_str()) {
-        return Err(format!("verb {:?}", verb));
     }
     Ok(Event { proto, verb, f })
 }
@@ -167,6 +179,13 @@ pub fn check(a: &Analysis, _aux: &mut Aux, t: &mut Tally) -> Vec<Violation> {
         }
         if !syntax_ok {
             continue;
+        }
+        // lines that are no recv / send / drop event (start-up information ...) are no part of the
+        // account of the frame
+        let others = evs.iter().filter(|e| !["recv", "send", "drop"].contains(&e.verb.as_str())).count();
+        if others > 0 {
+            t.probe("log-lines-that-are-no-event");
+            evs.retain(|e| ["recv", "send", "drop"].contains(&e.verb.as_str()));
         }
         let shape: Vec<String> = evs.iter().map(|e| format!("{}:{}", e.proto, &e.verb[..1])).collect();
         t.judged(
